@@ -49,6 +49,9 @@ func (g *schemaGenerator) generateRootType() error {
 
 	for _, name := range sortDefinitionsByName(g.schema.Definitions) {
 		def := g.schema.Definitions[name]
+		if def == nil {
+			return fmt.Errorf("definition %q: %w", name, errNullSubSchema)
+		}
 
 		_, err := g.generateDeclaredType(def, newNameScope(g.caser.Identifierize(name)))
 		if err != nil {
@@ -133,6 +136,10 @@ func (g *schemaGenerator) generateReferencedType(t *schemas.Type) (codegen.Type,
 		def, ok = schema.Definitions[defName]
 		if !ok {
 			return nil, fmt.Errorf("%w: %q (from ref %q)", errDefinitionDoesNotExistInSchema, defName, t.Ref)
+		}
+
+		if def == nil {
+			return nil, fmt.Errorf("definition %q (from ref %q): %w", defName, t.Ref, errNullSubSchema)
 		}
 
 		if len(def.Type) == 0 && len(def.Properties) == 0 {
@@ -478,6 +485,14 @@ func (g *schemaGenerator) generateUnmarshaler(decl codegen.TypeDecl, validators 
 }
 
 func (g *schemaGenerator) generateType(t *schemas.Type, scope nameScope) (codegen.Type, error) {
+	for _, branches := range [][]*schemas.Type{t.AllOf, t.AnyOf} {
+		for _, branch := range branches {
+			if branch == nil {
+				return nil, fmt.Errorf("allOf/anyOf branch: %w", errNullSubSchema)
+			}
+		}
+	}
+
 	if ext := t.GoJSONSchemaExtension; ext != nil {
 		for _, pkg := range ext.Imports {
 			g.output.file.Package.AddImport(pkg, "")
@@ -749,6 +764,10 @@ func (g *schemaGenerator) addStructField(
 	requiredNames map[string]bool,
 ) error {
 	prop := t.Properties[name]
+	if prop == nil {
+		return fmt.Errorf("property %q: %w", name, errNullSubSchema)
+	}
+
 	isRequired := requiredNames[name]
 
 	fieldName := g.caser.Identifierize(name)
@@ -1164,6 +1183,10 @@ func (g *schemaGenerator) resolveRefs(types []*schemas.Type) ([]*schemas.Type, e
 	for _, typ := range types {
 		resolvedType, err := g.resolveRef(typ)
 		if err != nil {
+			if typ == nil {
+				return nil, fmt.Errorf("allOf/anyOf branch: %w", err)
+			}
+
 			return nil, fmt.Errorf("could not resolve ref %q: %w", typ.Ref, err)
 		}
 
@@ -1174,6 +1197,10 @@ func (g *schemaGenerator) resolveRefs(types []*schemas.Type) ([]*schemas.Type, e
 }
 
 func (g *schemaGenerator) resolveRef(t *schemas.Type) (*schemas.Type, error) {
+	if t == nil {
+		return nil, errNullSubSchema
+	}
+
 	if t.Ref == "" {
 		return t, nil
 	}
